@@ -429,9 +429,9 @@ func explore(t *testing.T, rep *kit.Report, env kit.Env, sc scenario) {
 func TestC16(t *testing.T) {
 	env := kit.GetEnv()
 	rep := kit.NewReport("C16", env)
-	rep.Rule = "explicit-state BFS over event sequences on 2-3 real Peering instances with real link objects and running reader/writer workers (synctest bubble): dial(a,b) starts both real setup sides; pump(w) relays the pending handshake/link messages of one connection by one round (so two concurrent setups - incl. both ends dialling each other - interleave at message granularity); close (link.Close), mgrclose (Peering.CloseLink), eof (remote close) and break (I/O error on read and write) on either end; after every event the bubble is quiescent and the invariant is evaluated against the harness's own list of live link objects; states deduplicated on (per-connection progress and link states, registry content by link identity, peer routes); non-trivial = sequences longer than 3 events"
+	rep.Rule = "explicit-state BFS over event sequences on 2-3 real Peering instances with real link objects and running reader/writer workers (synctest bubble): dial(a,b) starts both real setup sides; pump(w) relays the pending handshake/link messages of one connection by one round (so two concurrent setups - incl. both ends dialling each other - interleave at message granularity); close (link.Close), mgrclose (Peering.CloseLink), eof (remote close) and break (I/O error on read and write) on either end; after every event the bubble is quiescent and the invariant is evaluated against the harness's own list of live link objects; states deduplicated on (per-connection progress and link states, registry content by link identity, peer routes); non-trivial = sequences longer than 3 events; second engine (registry-sched): 7 scenarios of 2-3 threads calling the real AddLink / Close->RemoveLink / CloseLink / lookups on virtual links to the same or different peers and labels, with the peering and m packages' sync operations as scheduling points, ALL schedules with <= 2 (thorough 3) preemptions, invariant when all threads are done"
 	rep.Assumptions = []string{
-		"goroutine scheduling inside one event is resolved by bubble quiescence: events are atomic from the harness's point of view; finer interleavings of the registry critical sections are the subject of the thorough schedx tier (see DESIGN.md)",
+		"BFS engine: goroutine scheduling inside one event is resolved by bubble quiescence, events are atomic from the harness's point of view; finer interleavings of the registry's critical sections are explored by the second (controlled-scheduler) engine on virtual links",
 		"random fallback switch labels are abstracted in the state key (link identity is used instead of the label value)",
 	}
 	scs := []scenario{
@@ -442,6 +442,7 @@ func TestC16(t *testing.T) {
 	for _, sc := range scs {
 		explore(t, rep, env, sc)
 	}
+	runRegistrySched(t, rep, env)
 	if err := rep.Finish(env); err != nil {
 		t.Fatal(err)
 	}
